@@ -5,6 +5,7 @@ import z3
 
 from . import bridge as bridge_mod
 from . import driver
+from . import genprog
 from .c02 import TASKS as EXT_TASKS, example_tasks, run_task
 from .c03 import PROGRAMS
 from .checks_common import generic_replay
@@ -47,7 +48,8 @@ def generate(tier, seed):
     chosen = [(WILD[i], WILD[(i + 1) % len(WILD)]) for i in range(len(WILD))] + pairs[:60 if tier == 'quick' else 600]
     many = [('', ':- 1 < 2. :- a = b. :- 3 != 3.'), (':- 1 < 2. :- a = b.', ''), ('p. q. r. s.', 'p :- q. q :- r. r :- s. s.'), ('p(X) :- q(X). q(X) :- r(X). r(1). r(2).', 'p(X) :- r(X). q(X) :- r(X). r(1..2). :- p(3).'),
             ('a. b :- a. c :- b. d :- c. e :- d.', 'e. d :- e. c :- d. b :- c. a :- b.')]
-    for (l, r) in many + chosen + strong_examples():
+    generated = genprog.pairs(seed + 3, 8 if tier == 'quick' else 150)
+    for (l, r) in many + chosen + generated + strong_examples():
         for rep in ('tau-star', 'mu'):
             for d in ('forward', 'backward'):
                 items.append({'family': 'strong', 'kind': 'strong', 'left': l, 'right': r, 'rep': rep, 'direction': d,
@@ -163,7 +165,7 @@ def replay(r):
 
 def describe(tier):
     return {
-        'rule': 'strong-equivalence tasks (pairs from the C03 pool extended by 8 programs outside the reference fragment: '
+        'rule': 'strong-equivalence tasks (grammar-generated pairs from av/genprog.py; pairs from the C03 pool extended by 8 programs outside the reference fragment: '
                 'unsafe rules, large arithmetic, division by zero, isize-boundary numerals; the repo\'s strong examples; both '
                 'formula representations) and external-equivalence tasks (the C02 corpus, repo examples), per direction; for '
                 'each, the 7 non-baseline combinations of decomposition x simplify x eq-break are compared with the baseline; '
